@@ -13,6 +13,9 @@ sed -i "s#mathcat = { path = \"/repo\"#mathcat = { path = \"$REPO\"#" "$SCRATCH/
 sed -i "s#target-dir = \"/verif/target\"#target-dir = \"$SCRATCH/target\"#" "$SCRATCH/sim/.cargo/config.toml"
 cp "$DIR/known_findings.json" "$SCRATCH/verif/"
 cd "$SCRATCH/sim" || exit 2
+# always rebuild the library under test: a cached artifact of another state of the same path has been seen to be
+# reused after patches were applied and reverted in quick succession (stale build => wrong verdict)
+CARGO_NET_OFFLINE=true cargo clean --release -p mathcat --offline > /dev/null 2>&1
 if ! CARGO_NET_OFFLINE=true cargo build --release --offline > "$SCRATCH/build.log" 2>&1; then
   echo "HARNESS-ERROR: build failed"; grep -E "^error" -A 10 "$SCRATCH/build.log" | head -40; exit 2
 fi
